@@ -1,7 +1,7 @@
 CONSTANTS
   DEV_QuoteFlagsBeforeEmit = TRUE
   DEV_GluedAfterAccepted = TRUE
-  DEV_RestrictedNeedsValidBody = TRUE
+  DEV_RestrictedNeedsValidBody = FALSE
 INIT Init
 NEXT Next
 CHECK_DEADLOCK FALSE
